@@ -606,6 +606,7 @@ class NumericColumn(FixedBytesColumn):
     class Writer(FixedBytesColumn.Writer):
         def __init__(self, dbfile, typecode, default):
             self._dbfile = dbfile
+            self._typecode = typecode
             self._pack = struct.Struct("!" + typecode).pack
             self._default = default
             self._defaultbytes = self._pack(default)
@@ -1192,8 +1193,8 @@ class ClampedNumericColumn(WrappedColumn):
             self._max = typecode_max[child._typecode]
 
         def add(self, docnum, v):
-            v = min(v, self._min)
-            v = max(v, self._max)
+            v = max(v, self._min)
+            v = min(v, self._max)
             self._child.add(docnum, v)
 
 
